@@ -96,7 +96,7 @@ class Flow(object):
         self.reqs.append(r)
         return r
 
-    def publish(self, qos=None, retain=None, c=None):
+    def publish(self, qos=None, retain=None, c=None, tag=None, pl=None):
         eng, w = self.eng, self.w
         c = c or self.c
         st = w.begin_step('publish')
@@ -104,15 +104,16 @@ class Flow(object):
         r.window_at_call = c.window
         self.reqs.append(r)
         r.qos = eng.int('qos', 0, 2) if qos is None else qos
-        r.topic = [0x41 + r.order % 26]
-        r.payload = [r.order % 256, eng.int('pl', 0, 255)]
+        k = r.order if tag is None else tag
+        r.topic = [0x41 + k % 26]
+        r.payload = [k % 256, eng.int('pl', 0, 255) if pl is None else pl]
         r.retain = eng.bool('retain') if retain is None else retain
         self.meta[st] = {'kind': 'publish', 'req': r, 'conn': c}
         r.tr = w.api(c, 'publish', 'pub%d' % r.order, mkstr(eng, r.topic), mkbytearray(eng, r.payload), qos=r.qos, retain=r.retain)
         w.after_api()
         return r
 
-    def subscribe(self, shape='str', qos=None, c=None):
+    def subscribe(self, shape='str', qos=None, c=None, tag=None):
         eng, w = self.eng, self.w
         c = c or self.c
         st = w.begin_step('subscribe')
@@ -121,7 +122,7 @@ class Flow(object):
         self.reqs.append(r)
         r.shape = shape
         q = (lambda: eng.int('sqos', 0, 2)) if qos is None else (lambda: qos)
-        t0 = [0x61 + r.order % 26]
+        t0 = [0x61 + (r.order if tag is None else tag) % 26]
         if shape == 'str':
             r.topics = [(t0, q())]
             args = (mkstr(eng, t0), r.topics[0][1])
